@@ -705,3 +705,59 @@ def bool_atoms(e, out=None):
         return bool_atoms(e["r"], out)
     out.append(e)
     return out
+
+
+# ---------------------------------------------------------------------------------------------
+# where a local's value comes from
+
+def binding_sources(root):
+    """{local id: expression the local is bound from}, following destructuring of tuples, the success projections `Ok(x)` /
+    `Some(x)` of `if let` / `match` / `let`, and `?` (so `let r = f(x)?;`, `let r = f(x).map_err(..)?;` and
+    `if let (Ok(r), ..) = (f(x), ..)` all give r -> f(x))."""
+    out = {}
+
+    def strip(e):
+        e = simp(e)
+        while isinstance(e, dict):
+            t = try_inner(e) if e.get("k") == "match" else None
+            if t is not None:
+                e = simp(t)
+                continue
+            if e.get("k") == "call" and callee(e).split("::")[-1] in ("map_err", "ok", "ok_or", "ok_or_else") and e.get("args"):
+                e = simp(e["args"][0])
+                continue
+            break
+        return e
+
+    def bind(p, src):
+        k = p.get("k")
+        if k == "pbind":
+            if src is not None and "id" in p:
+                out[p["id"]] = strip(src)
+            return
+        if k == "ptuple":
+            s = strip(src) if src is not None else None
+            es = s.get("es") if isinstance(s, dict) and s.get("k") == "tuple" else None
+            for i, q in enumerate(p.get("pats", [])):
+                bind(q, es[i] if es is not None and i < len(es) else None)
+            return
+        if k in ("pts", "pstruct"):
+            seg = last_seg(pat_path(p))
+            subs = p.get("pats") if k == "pts" else [f["p"] for f in p.get("fields", [])]
+            if seg in ("Ok", "Some") and len(subs or []) == 1:
+                bind(subs[0], src)
+            else:
+                for q in subs or []:
+                    bind(q, None)
+            return
+        if k in ("pref", "pderef") and "p" in p:
+            bind(p["p"], src)
+
+    for n in walk(root):
+        k = n.get("k")
+        if k in ("let", "letexpr") and "init" in n:
+            bind(n["pat"], n["init"])
+        elif k == "match" and n.get("src") not in ("TryDesugar", "ForLoopDesugar"):
+            for a in n["arms"]:
+                bind(a["pat"], n["scrut"])
+    return out
